@@ -462,7 +462,7 @@ fn execute(store: usize, base: &Path, hist: &[Op], crash_after: Option<usize>) -
     let mut m2 = TenantManager::with_store(inner);
     ex.recovered = match mc::catch(|| m2.recover()) {
         Ok(Ok(_)) => Ok(observe(&m2)),
-        Ok(Err(e)) => Err(format!("recover() returned Err({e})")),
+        Ok(Err(e)) => Err(format!("recover() returned Err({})", scrub_uuids(&e.to_string()))),
         Err(p) => Err(format!("recover() panicked: {p}")),
     };
     drop(m2);
@@ -716,4 +716,41 @@ pub fn run(args: &Args) -> ! {
     rep.assume("BFS merging assumes the store content is a function of the canonical state up to ids and map order; Phase B re-checks all short histories without that assumption");
     let _ = std::fs::remove_dir_all(&base);
     rep.finish();
+}
+
+/// Server-generated ids (uuids) differ between executions; error texts that quote them are compared
+/// (replay-determinism gate) and reported with the ids replaced.
+fn scrub_uuids(s: &str) -> String {
+    let b: Vec<char> = s.chars().collect();
+    let is_uuid_at = |i: usize| -> bool {
+        let pat = [8usize, 4, 4, 4, 12];
+        let mut j = i;
+        for (k, n) in pat.iter().enumerate() {
+            for _ in 0..*n {
+                if j >= b.len() || !b[j].is_ascii_hexdigit() {
+                    return false;
+                }
+                j += 1;
+            }
+            if k < 4 {
+                if j >= b.len() || b[j] != '-' {
+                    return false;
+                }
+                j += 1;
+            }
+        }
+        true
+    };
+    let mut out = String::new();
+    let mut i = 0;
+    while i < b.len() {
+        if is_uuid_at(i) {
+            out.push_str("<uuid>");
+            i += 36;
+        } else {
+            out.push(b[i]);
+            i += 1;
+        }
+    }
+    out
 }
